@@ -102,6 +102,19 @@ def script(r, tiny=False, ncomp=None, split=None, alldefault=False):
     return s
 
 
+def near_degenerate(case_text):
+    """finding F16: does the spectrum dumped by the single-rank run contain two levels closer than the term-merging
+    tolerance (1e-8, with slack) that are not numerically equal?"""
+    es = []
+    for l in case_text.splitlines():
+        t = l.split()
+        if len(t) > 3 and t[0] == "o" and t[1] == "eig":
+            n = int(t[3])
+            es += [fl(x) for x in t[4:4 + n]]
+    es.sort()
+    return any(1e-12 * (1 + abs(a)) < b - a < 3e-8 for a, b in zip(es, es[1:]))
+
+
 def fixed_scripts():
     """minimised regression inputs that run first on every check"""
     L, v = pipeline.lab, pipeline.val
@@ -111,7 +124,13 @@ def fixed_scripts():
          "gf 0 0 2 0 2 0 0", "chi 0 1 1 0 0 2 0 1 0 1 -1 1",
          "tpc new", "tpc prepareall 0", "tpc computeall 1", "tpc list", "tpc evalall 0 1 0"]
     s += ["tpc get %d %d %d %d 0 1 0" % (a, b, c, d) for a in range(2) for b in range(2) for c in range(2) for d in range(2)]
-    return [s]
+    # finding F16: Anderson impurity with a weakly hybridised bath site (many-body levels split by ~2e-9)
+    t = ["site %s 1 2" % L("A"), "preset coulombS %s %s %s" % (L("A"), v(1.0), v(-0.4)), "site %s 1 2" % L("b0"),
+         "preset hop4 %s %s %s" % (L("A"), L("b0"), v(0.35)), "preset level %s %s" % (L("b0"), v(0.27)), "site %s 1 2" % L("b1"),
+         "preset hop4 %s %s %s" % (L("A"), L("b1"), v(3e-5)), "preset level %s %s" % (L("b1"), v(-0.13)),
+         "dumplattice", "index 0", "ham", "symm default", "states", "hprepare", "hcompute", "dm %s" % pipeline.hx(10.0), "fops",
+         "chi 0 1 1 0 0 3 0 0 0 1 -1 1 2 0 1"]
+    return [s, t]
 
 
 def correspondence(ctx):
@@ -159,19 +178,55 @@ def correspondence(ctx):
             for rk, text in sorted(res.ranks.items()):
                 d = compare(base.case, text, rk)
                 if d:
+                    chi_line = any(w in d for w in ("o chi", "o chiafter", "o chitab", "o tpcget", "o vertex"))
+                    sig = "c06-neardeg" if (chi_line and near_degenerate(base.case)) else "c06-diff:" + d.split(":")[0][:30]
                     ctx.problem("propfail", "PROPFAIL[C06] rank %d of %d (threads %d) differs from the single-rank run: %s" % (rk, np, th, d),
-                                signature="c06-diff:" + d.split(":")[0][:30], **case)
+                                signature=sig, **case)
                     break
         if len(ctx.samples) < 3:
             ctx.samples.append(dict(script=s[-10:], configs=configs))
-        if sum(1 for p in ctx.problems if p["kind"] in ("propfail", "hang", "sanitizer")) >= 3:
-            break       # enough concrete failures (each hang costs a full timeout)
+        if sum(1 for p in ctx.problems if p["kind"] in ("propfail", "hang", "sanitizer") and p.get("signature") != "c06-neardeg") >= 3:
+            break       # enough concrete failures (each hang costs a full timeout); the listed finding F16 does not count
+    # the complex-matrix-element build under MPI (typed broadcasts of complex blocks): a complex-hopping model
+    exec_c = pmlib.build_harness("pipe", "complex")
+    for k in range(3 if thorough else 1):
+        m = pipeline.gen_model(r, max_modes=r.choice([2, 3, 4]), cplx=True)
+        M = m.modes()
+        s = pipeline.core_script(m, order=0, symm=r.choice(["default", "ignore"]))
+        s += ["dm %s" % pipeline.hx(2.0), "fops"] + ["gf %d %d 2 0 -1 0 0" % (r.below(M), r.below(M)) for _ in range(3)]
+        s += ["chi %d %d %d %d 0 2 0 0 0 1 -1 1" % (r.below(M), r.below(M), r.below(M), r.below(M))]
+        base = pipeline.run_case(exec_c, s, "complex", numeric=False, timeout=300)
+        ctx.evaluations += 1
+        if base.aborted():
+            ctx.problem("sanitizer", "single-rank run (complex build) aborted: %s" % base.sanitizer(), script=s, harness="pipe", variant="complex",
+                        log=base.err[-1500:], signature="c06-base-abort-complex")
+            continue
+        for (np, th) in ([(2, 1), (3, 2)] if not thorough else [(2, 1), (3, 2), (5, 1)]):
+            res = pipeline.run_case(exec_c, s, "complex", numeric=False, timeout=(240 if thorough else 90), np=np, threads=th)
+            ctx.evaluations += 1
+            ctx.count("complex_np_%d" % np)
+            ctx.distinct.add((tuple(s), np, th, "complex"))
+            case = dict(script=s, np=np, threads=th, harness="pipe", variant="complex")
+            if res.rc == -999:
+                ctx.problem("hang", "PROPFAIL[C06] complex build: mpiexec -np %d did not terminate within the time limit" % np, signature="c06-hang", **case)
+                continue
+            if res.rc != 0 or len(res.ranks) != np:
+                ctx.problem("sanitizer", "complex build: mpiexec -np %d run failed: %s" % (np, res.sanitizer() or "exit %s" % res.rc),
+                            log=res.err[-2000:], signature="c06-abort", **case)
+                continue
+            for rk, text in sorted(res.ranks.items()):
+                d = compare(base.case, text, rk)
+                if d:
+                    ctx.problem("propfail", "PROPFAIL[C06] complex build: rank %d of %d differs from the single-rank run: %s" % (rk, np, d),
+                                signature="c06-diff-complex:" + d.split(":")[0][:30], **case)
+                    break
 
 
 def replay(ctx, rp):
-    exe = pmlib.build_harness("pipe")
-    base = pipeline.run_case(exe, rp["script"], "real", numeric=False)
-    res = pipeline.run_case(exe, rp["script"], "real", numeric=False, timeout=240, np=rp.get("np", 2), threads=rp.get("threads", 1))
+    var = rp.get("variant", "real")
+    exe = pmlib.build_harness("pipe", var)
+    base = pipeline.run_case(exe, rp["script"], var, numeric=False)
+    res = pipeline.run_case(exe, rp["script"], var, numeric=False, timeout=240, np=rp.get("np", 2), threads=rp.get("threads", 1))
     print("rc", res.rc)
     bad = res.rc != 0
     for rk, text in sorted(res.ranks.items()):
